@@ -4,7 +4,15 @@
 use std::net::{IpAddr, Ipv4Addr, Ipv6Addr};
 
 use rustybgp_packet::bgp::{Family, Ipv4Net, Ipv6Net, Nlri};
+use rustybgp_packet::evpn::{
+    Esi, EthernetAutoDiscoveryRoute, EthernetIpPrefixRoute, EthernetSegmentRoute, EvpnNlri, InclusiveMulticastEthernetTag,
+    MacIpAdvertisement,
+};
+use rustybgp_packet::flowspec::{
+    FlowspecV4Component, FlowspecV4Nlri, FlowspecV6Component, FlowspecV6Nlri, FlowspecVpnV4Nlri, FlowspecVpnV6Nlri, Op,
+};
 use rustybgp_packet::labeled::{LabeledV4Nlri, LabeledV6Nlri};
+use rustybgp_packet::ls::{BgpLsLinkNlri, BgpLsNlri, BgpLsNodeNlri, BgpLsPrefixNlri, LinkDescTlv, NodeDescriptor, PrefixDescTlv};
 use rustybgp_packet::mpls::{MplsLabel, MplsLabelStack};
 use rustybgp_packet::mup::{
     MupDirectSegmentDiscoveryRoute, MupInterworkSegmentDiscoveryRoute, MupNlri, MupType1SessionTransformedRoute,
@@ -46,6 +54,70 @@ fn ip4(r: &mut Rng) -> IpAddr {
 }
 fn ip6(r: &mut Rng) -> IpAddr {
     IpAddr::V6(Ipv6Addr::from((((r.next() as u128) << 64) | r.next() as u128).to_be_bytes()))
+}
+
+fn esi(r: &mut Rng) -> Esi {
+    let mut b = [0u8; 10];
+    for x in b.iter_mut() {
+        *x = r.next() as u8;
+    }
+    Esi(b)
+}
+
+fn ops(r: &mut Rng, n: u64, wide: bool) -> Vec<Op> {
+    (0..n)
+        .map(|i| Op {
+            bits: (if i + 1 == n { Op::END } else { 0 }) | Op::EQ,
+            value: if wide { 0x1_0000 + (r.next() & 0xffff) } else { r.next() & 0xff },
+        })
+        .collect()
+}
+
+fn flow_v4(r: &mut Rng, kind: u64) -> Vec<FlowspecV4Component> {
+    // kind 0: dst prefix only; 1: dst+src+proto+port; 2: long (many operators)
+    let mut v = vec![FlowspecV4Component::DstPrefix(v4net(r, 24))];
+    if kind >= 1 {
+        v.push(FlowspecV4Component::SrcPrefix(v4net(r, 32)));
+        v.push(FlowspecV4Component::Protocol(ops(r, 1, false)));
+        v.push(FlowspecV4Component::DstPort(ops(r, 2, true)));
+    }
+    if kind >= 2 {
+        v.push(FlowspecV4Component::SrcPort(ops(r, 12, true)));
+        v.push(FlowspecV4Component::PacketLen(ops(r, 12, true)));
+    }
+    if kind >= 3 {
+        // more than 240 bytes: two-byte NLRI length
+        v.push(FlowspecV4Component::Dscp(ops(r, 60, true)));
+    }
+    v
+}
+
+fn flow_v6(r: &mut Rng, kind: u64) -> Vec<FlowspecV6Component> {
+    let mut v = vec![FlowspecV6Component::DstPrefix { prefix: v6net(r, 64), offset: 0 }];
+    if kind >= 1 {
+        v.push(FlowspecV6Component::SrcPrefix { prefix: v6net(r, 128), offset: 0 });
+        v.push(FlowspecV6Component::NextHeader(ops(r, 1, false)));
+        v.push(FlowspecV6Component::DstPort(ops(r, 2, true)));
+    }
+    if kind >= 2 {
+        v.push(FlowspecV6Component::SrcPort(ops(r, 12, true)));
+        v.push(FlowspecV6Component::FlowLabel(ops(r, 12, true)));
+    }
+    if kind >= 3 {
+        v.push(FlowspecV6Component::Dscp(ops(r, 60, true)));
+    }
+    v
+}
+
+fn node(r: &mut Rng, full: bool) -> NodeDescriptor {
+    NodeDescriptor {
+        asn: Some(r.next() as u32),
+        bgp_ls_id: if full { Some(r.next() as u32) } else { None },
+        ospf_area_id: if full { Some(r.next() as u32) } else { None },
+        igp_router_id: Some((0..if full { 6 } else { 4 }).map(|_| r.next() as u8).collect()),
+        bgp_router_id: None,
+        bgp_confederation_member: None,
+    }
 }
 
 /// kind: family specific.  For VPN / labeled families `kind` = number of labels (1 = the ordinary case);
@@ -142,6 +214,117 @@ pub fn mk_nlri(fam: Family, kind: u64, seed: u64) -> Option<Nlri> {
                 _ => return None,
             }))
         }
+        (1, 133) => {
+            if kind > 3 {
+                return None;
+            }
+            Some(Nlri::FlowspecV4(FlowspecV4Nlri { components: flow_v4(&mut r, kind) }))
+        }
+        (2, 133) => {
+            if kind > 3 {
+                return None;
+            }
+            Some(Nlri::FlowspecV6(FlowspecV6Nlri { components: flow_v6(&mut r, kind) }))
+        }
+        (1, 134) => {
+            if kind > 3 {
+                return None;
+            }
+            Some(Nlri::FlowspecVpnV4(FlowspecVpnV4Nlri { rd: rd(&mut r), components: flow_v4(&mut r, kind) }))
+        }
+        (2, 134) => {
+            if kind > 3 {
+                return None;
+            }
+            Some(Nlri::FlowspecVpnV6(FlowspecVpnV6Nlri { rd: rd(&mut r), components: flow_v6(&mut r, kind) }))
+        }
+        (25, 70) => Some(Nlri::Evpn(match kind {
+            1 => EvpnNlri::EthernetAutoDiscovery(EthernetAutoDiscoveryRoute {
+                rd: rd(&mut r),
+                esi: esi(&mut r),
+                etag: r.next() as u32,
+                label: r.next() as u32 & 0xff_ffff,
+            }),
+            2 | 12 | 22 => {
+                let mut mac = [0u8; 6];
+                for b in mac.iter_mut() {
+                    *b = r.next() as u8;
+                }
+                EvpnNlri::MacIpAdvertisement(MacIpAdvertisement {
+                    rd: rd(&mut r),
+                    esi: esi(&mut r),
+                    etag: r.next() as u32,
+                    mac,
+                    ip: match kind {
+                        2 => None,
+                        12 => Some(ip4(&mut r)),
+                        _ => Some(ip6(&mut r)),
+                    },
+                    label1: r.next() as u32 & 0xff_ffff,
+                    label2: if kind == 22 { Some(r.next() as u32 & 0xff_ffff) } else { None },
+                })
+            }
+            3 | 13 => EvpnNlri::InclusiveMulticastEthernetTag(InclusiveMulticastEthernetTag {
+                rd: rd(&mut r),
+                etag: r.next() as u32,
+                originating_router_ip: if kind == 3 { ip4(&mut r) } else { ip6(&mut r) },
+            }),
+            4 | 14 => EvpnNlri::EthernetSegment(EthernetSegmentRoute {
+                rd: rd(&mut r),
+                esi: esi(&mut r),
+                originating_router_ip: if kind == 4 { ip4(&mut r) } else { ip6(&mut r) },
+            }),
+            5 => EvpnNlri::EthernetIpPrefix(EthernetIpPrefixRoute {
+                rd: rd(&mut r),
+                esi: esi(&mut r),
+                etag: r.next() as u32,
+                ip_prefix: IpAddr::V4(v4net(&mut r, 24).addr),
+                prefix_len: 24,
+                gateway_ip: ip4(&mut r),
+                label: r.next() as u32 & 0xff_ffff,
+            }),
+            15 => EvpnNlri::EthernetIpPrefix(EthernetIpPrefixRoute {
+                rd: rd(&mut r),
+                esi: esi(&mut r),
+                etag: r.next() as u32,
+                ip_prefix: IpAddr::V6(v6net(&mut r, 64).addr),
+                prefix_len: 64,
+                gateway_ip: ip6(&mut r),
+                label: r.next() as u32 & 0xff_ffff,
+            }),
+            _ => return None,
+        })),
+        (16388, 71) => Some(Nlri::Ls(match kind {
+            0 => BgpLsNlri::Node(BgpLsNodeNlri { protocol_id: 3, identifier: r.next(), local_node: node(&mut r, false) }),
+            1 => BgpLsNlri::Node(BgpLsNodeNlri { protocol_id: 2, identifier: r.next(), local_node: node(&mut r, true) }),
+            2 => BgpLsNlri::Link(BgpLsLinkNlri {
+                protocol_id: 2,
+                identifier: r.next(),
+                local_node: node(&mut r, true),
+                remote_node: node(&mut r, true),
+                link_desc: vec![
+                    LinkDescTlv::LinkId { local: r.next() as u32, remote: r.next() as u32 },
+                    LinkDescTlv::Ipv4InterfaceAddr((r.next() as u32).to_be_bytes()),
+                    LinkDescTlv::Ipv4NeighborAddr((r.next() as u32).to_be_bytes()),
+                ],
+            }),
+            3 => BgpLsNlri::PrefixV4(BgpLsPrefixNlri {
+                protocol_id: 3,
+                identifier: r.next(),
+                local_node: node(&mut r, false),
+                prefix_desc: vec![PrefixDescTlv::IpReachability { prefix_len: 24, addr: vec![10, r.next() as u8, r.next() as u8] }],
+            }),
+            4 => BgpLsNlri::PrefixV6(BgpLsPrefixNlri {
+                protocol_id: 2,
+                identifier: r.next(),
+                local_node: node(&mut r, true),
+                prefix_desc: vec![
+                    PrefixDescTlv::OspfRouteType(1),
+                    PrefixDescTlv::IpReachability { prefix_len: 64, addr: (0..8).map(|_| r.next() as u8).collect() },
+                ],
+            }),
+            _ => return None,
+        })),
         _ => None,
     }
 }
